@@ -1,0 +1,181 @@
+//go:build verif
+
+// Contracts for package action, file govUpdate.go (C14 "a configuration change is applied exactly once, only for a passed
+// proposal"). The update functions are called through the map GovUpdate.GovernanceUpdateFunction: in ValidateOnly mode when a
+// configuration proposal is CREATED (action/governance runTx; its contract says `dyncalls pure`: that call changes nothing)
+// and in update mode when a passed one is FINALISED. Each of them is verified here for the fact the first call site rests
+// on: in ValidateOnly mode nothing is written - no option record or last-update-height entry of the governance store
+// (govWrites), nothing visible through its State, not the store's height tag, not the in-memory option caches of the fee
+// pool / domain store / proposal store - and success is reported exactly without an error.
+// Comment-only file, read by /verif/govc.
+
+package action
+
+//@ func evidenceOptionsminVotesRequired
+//@   safety C18
+//@   requires ctx != nil && ctx.GovernanceStore != nil && ctx.Header != nil                                                       // C18.ctx
+//@   ensures validationOnly == ValidateOnly ==> govWrites(ctx.GovernanceStore) == old(govWrites(ctx.GovernanceStore)) && vHas(ctx.GovernanceStore.state) == old(vHas(ctx.GovernanceStore.state)) && vVal(ctx.GovernanceStore.state) == old(vVal(ctx.GovernanceStore.state)) && ctx.GovernanceStore.height == old(ctx.GovernanceStore.height)   // C14.validate-only-pure
+//@   ensures result0 ==> err == nil                                                                             // C14.update-result
+//@   ensures !result0 ==> err != nil                                                                            // C14.update-result
+
+//@ func evidenceOptionsblockVotesDiff
+//@   safety C18
+//@   requires ctx != nil && ctx.GovernanceStore != nil && ctx.Header != nil                                                       // C18.ctx
+//@   ensures validationOnly == ValidateOnly ==> govWrites(ctx.GovernanceStore) == old(govWrites(ctx.GovernanceStore)) && vHas(ctx.GovernanceStore.state) == old(vHas(ctx.GovernanceStore.state)) && vVal(ctx.GovernanceStore.state) == old(vVal(ctx.GovernanceStore.state)) && ctx.GovernanceStore.height == old(ctx.GovernanceStore.height)   // C14.validate-only-pure
+//@   ensures result0 ==> err == nil                                                                             // C14.update-result
+//@   ensures !result0 ==> err != nil                                                                            // C14.update-result
+
+//@ func evidenceOptionspenaltyBasePercentage
+//@   safety C18
+//@   requires ctx != nil && ctx.GovernanceStore != nil && ctx.Header != nil                                                       // C18.ctx
+//@   ensures validationOnly == ValidateOnly ==> govWrites(ctx.GovernanceStore) == old(govWrites(ctx.GovernanceStore)) && vHas(ctx.GovernanceStore.state) == old(vHas(ctx.GovernanceStore.state)) && vVal(ctx.GovernanceStore.state) == old(vVal(ctx.GovernanceStore.state)) && ctx.GovernanceStore.height == old(ctx.GovernanceStore.height)   // C14.validate-only-pure
+//@   ensures result0 ==> err == nil                                                                             // C14.update-result
+//@   ensures !result0 ==> err != nil                                                                            // C14.update-result
+
+//@ func stakingOptionsminSelfDelegationAmount
+//@   safety C18
+//@   requires ctx != nil && ctx.GovernanceStore != nil && ctx.Header != nil                                                       // C18.ctx
+//@   ensures validationOnly == ValidateOnly ==> govWrites(ctx.GovernanceStore) == old(govWrites(ctx.GovernanceStore)) && vHas(ctx.GovernanceStore.state) == old(vHas(ctx.GovernanceStore.state)) && vVal(ctx.GovernanceStore.state) == old(vVal(ctx.GovernanceStore.state)) && ctx.GovernanceStore.height == old(ctx.GovernanceStore.height)   // C14.validate-only-pure
+//@   ensures result0 ==> err == nil                                                                             // C14.update-result
+//@   ensures !result0 ==> err != nil                                                                            // C14.update-result
+
+//@ func stakingOptionstopValidatorCount
+//@   safety C18
+//@   requires ctx != nil && ctx.GovernanceStore != nil && ctx.Header != nil                                                       // C18.ctx
+//@   ensures validationOnly == ValidateOnly ==> govWrites(ctx.GovernanceStore) == old(govWrites(ctx.GovernanceStore)) && vHas(ctx.GovernanceStore.state) == old(vHas(ctx.GovernanceStore.state)) && vVal(ctx.GovernanceStore.state) == old(vVal(ctx.GovernanceStore.state)) && ctx.GovernanceStore.height == old(ctx.GovernanceStore.height)   // C14.validate-only-pure
+//@   ensures result0 ==> err == nil                                                                             // C14.update-result
+//@   ensures !result0 ==> err != nil                                                                            // C14.update-result
+
+//@ func stakingOptionsmaturityTime
+//@   safety C18
+//@   requires ctx != nil && ctx.GovernanceStore != nil && ctx.Header != nil                                                       // C18.ctx
+//@   ensures validationOnly == ValidateOnly ==> govWrites(ctx.GovernanceStore) == old(govWrites(ctx.GovernanceStore)) && vHas(ctx.GovernanceStore.state) == old(vHas(ctx.GovernanceStore.state)) && vVal(ctx.GovernanceStore.state) == old(vVal(ctx.GovernanceStore.state)) && ctx.GovernanceStore.height == old(ctx.GovernanceStore.height)   // C14.validate-only-pure
+//@   ensures result0 ==> err == nil                                                                             // C14.update-result
+//@   ensures !result0 ==> err != nil                                                                            // C14.update-result
+
+//@ func propOptionsconfigUpdateinitialFunding
+//@   safety C18
+//@   requires ctx != nil && ctx.GovernanceStore != nil && ctx.Header != nil && ctx.ProposalMasterStore != nil && ctx.ProposalMasterStore.Proposal != nil                                                       // C18.ctx
+//@   ensures validationOnly == ValidateOnly ==> govWrites(ctx.GovernanceStore) == old(govWrites(ctx.GovernanceStore)) && vHas(ctx.GovernanceStore.state) == old(vHas(ctx.GovernanceStore.state)) && vVal(ctx.GovernanceStore.state) == old(vVal(ctx.GovernanceStore.state)) && ctx.GovernanceStore.height == old(ctx.GovernanceStore.height) && (ctx.ProposalMasterStore != nil && ctx.ProposalMasterStore.Proposal != nil ==> ctx.ProposalMasterStore.Proposal.proposalOptions == old(ctx.ProposalMasterStore.Proposal.proposalOptions))   // C14.validate-only-pure
+//@   ensures result0 ==> err == nil                                                                             // C14.update-result
+//@   ensures !result0 ==> err != nil                                                                            // C14.update-result
+
+//@ func propOptionscodeChangeinitialFunding
+//@   safety C18
+//@   requires ctx != nil && ctx.GovernanceStore != nil && ctx.Header != nil && ctx.ProposalMasterStore != nil && ctx.ProposalMasterStore.Proposal != nil                                                       // C18.ctx
+//@   ensures validationOnly == ValidateOnly ==> govWrites(ctx.GovernanceStore) == old(govWrites(ctx.GovernanceStore)) && vHas(ctx.GovernanceStore.state) == old(vHas(ctx.GovernanceStore.state)) && vVal(ctx.GovernanceStore.state) == old(vVal(ctx.GovernanceStore.state)) && ctx.GovernanceStore.height == old(ctx.GovernanceStore.height) && (ctx.ProposalMasterStore != nil && ctx.ProposalMasterStore.Proposal != nil ==> ctx.ProposalMasterStore.Proposal.proposalOptions == old(ctx.ProposalMasterStore.Proposal.proposalOptions))   // C14.validate-only-pure
+//@   ensures result0 ==> err == nil                                                                             // C14.update-result
+//@   ensures !result0 ==> err != nil                                                                            // C14.update-result
+
+//@ func propOptionsgeneralinitialFunding
+//@   safety C18
+//@   requires ctx != nil && ctx.GovernanceStore != nil && ctx.Header != nil && ctx.ProposalMasterStore != nil && ctx.ProposalMasterStore.Proposal != nil                                                       // C18.ctx
+//@   ensures validationOnly == ValidateOnly ==> govWrites(ctx.GovernanceStore) == old(govWrites(ctx.GovernanceStore)) && vHas(ctx.GovernanceStore.state) == old(vHas(ctx.GovernanceStore.state)) && vVal(ctx.GovernanceStore.state) == old(vVal(ctx.GovernanceStore.state)) && ctx.GovernanceStore.height == old(ctx.GovernanceStore.height) && (ctx.ProposalMasterStore != nil && ctx.ProposalMasterStore.Proposal != nil ==> ctx.ProposalMasterStore.Proposal.proposalOptions == old(ctx.ProposalMasterStore.Proposal.proposalOptions))   // C14.validate-only-pure
+//@   ensures result0 ==> err == nil                                                                             // C14.update-result
+//@   ensures !result0 ==> err != nil                                                                            // C14.update-result
+
+//@ func propOptionsconfigUpdatefundingGoal
+//@   safety C18
+//@   requires ctx != nil && ctx.GovernanceStore != nil && ctx.Header != nil && ctx.ProposalMasterStore != nil && ctx.ProposalMasterStore.Proposal != nil                                                       // C18.ctx
+//@   ensures validationOnly == ValidateOnly ==> govWrites(ctx.GovernanceStore) == old(govWrites(ctx.GovernanceStore)) && vHas(ctx.GovernanceStore.state) == old(vHas(ctx.GovernanceStore.state)) && vVal(ctx.GovernanceStore.state) == old(vVal(ctx.GovernanceStore.state)) && ctx.GovernanceStore.height == old(ctx.GovernanceStore.height) && (ctx.ProposalMasterStore != nil && ctx.ProposalMasterStore.Proposal != nil ==> ctx.ProposalMasterStore.Proposal.proposalOptions == old(ctx.ProposalMasterStore.Proposal.proposalOptions))   // C14.validate-only-pure
+//@   ensures result0 ==> err == nil                                                                             // C14.update-result
+//@   ensures !result0 ==> err != nil                                                                            // C14.update-result
+
+//@ func propOptionscodeChangefundingGoal
+//@   safety C18
+//@   requires ctx != nil && ctx.GovernanceStore != nil && ctx.Header != nil && ctx.ProposalMasterStore != nil && ctx.ProposalMasterStore.Proposal != nil                                                       // C18.ctx
+//@   ensures validationOnly == ValidateOnly ==> govWrites(ctx.GovernanceStore) == old(govWrites(ctx.GovernanceStore)) && vHas(ctx.GovernanceStore.state) == old(vHas(ctx.GovernanceStore.state)) && vVal(ctx.GovernanceStore.state) == old(vVal(ctx.GovernanceStore.state)) && ctx.GovernanceStore.height == old(ctx.GovernanceStore.height) && (ctx.ProposalMasterStore != nil && ctx.ProposalMasterStore.Proposal != nil ==> ctx.ProposalMasterStore.Proposal.proposalOptions == old(ctx.ProposalMasterStore.Proposal.proposalOptions))   // C14.validate-only-pure
+//@   ensures result0 ==> err == nil                                                                             // C14.update-result
+//@   ensures !result0 ==> err != nil                                                                            // C14.update-result
+
+//@ func propOptionsgeneralfundingGoal
+//@   safety C18
+//@   requires ctx != nil && ctx.GovernanceStore != nil && ctx.Header != nil && ctx.ProposalMasterStore != nil && ctx.ProposalMasterStore.Proposal != nil                                                       // C18.ctx
+//@   ensures validationOnly == ValidateOnly ==> govWrites(ctx.GovernanceStore) == old(govWrites(ctx.GovernanceStore)) && vHas(ctx.GovernanceStore.state) == old(vHas(ctx.GovernanceStore.state)) && vVal(ctx.GovernanceStore.state) == old(vVal(ctx.GovernanceStore.state)) && ctx.GovernanceStore.height == old(ctx.GovernanceStore.height) && (ctx.ProposalMasterStore != nil && ctx.ProposalMasterStore.Proposal != nil ==> ctx.ProposalMasterStore.Proposal.proposalOptions == old(ctx.ProposalMasterStore.Proposal.proposalOptions))   // C14.validate-only-pure
+//@   ensures result0 ==> err == nil                                                                             // C14.update-result
+//@   ensures !result0 ==> err != nil                                                                            // C14.update-result
+
+//@ func propOptionsconfigUpdatevotingDeadline
+//@   safety C18
+//@   requires ctx != nil && ctx.GovernanceStore != nil && ctx.Header != nil && ctx.ProposalMasterStore != nil && ctx.ProposalMasterStore.Proposal != nil                                                       // C18.ctx
+//@   ensures validationOnly == ValidateOnly ==> govWrites(ctx.GovernanceStore) == old(govWrites(ctx.GovernanceStore)) && vHas(ctx.GovernanceStore.state) == old(vHas(ctx.GovernanceStore.state)) && vVal(ctx.GovernanceStore.state) == old(vVal(ctx.GovernanceStore.state)) && ctx.GovernanceStore.height == old(ctx.GovernanceStore.height) && (ctx.ProposalMasterStore != nil && ctx.ProposalMasterStore.Proposal != nil ==> ctx.ProposalMasterStore.Proposal.proposalOptions == old(ctx.ProposalMasterStore.Proposal.proposalOptions))   // C14.validate-only-pure
+//@   ensures result0 ==> err == nil                                                                             // C14.update-result
+//@   ensures !result0 ==> err != nil                                                                            // C14.update-result
+
+//@ func propOptionscodeChangevotingDeadline
+//@   safety C18
+//@   requires ctx != nil && ctx.GovernanceStore != nil && ctx.Header != nil && ctx.ProposalMasterStore != nil && ctx.ProposalMasterStore.Proposal != nil                                                       // C18.ctx
+//@   ensures validationOnly == ValidateOnly ==> govWrites(ctx.GovernanceStore) == old(govWrites(ctx.GovernanceStore)) && vHas(ctx.GovernanceStore.state) == old(vHas(ctx.GovernanceStore.state)) && vVal(ctx.GovernanceStore.state) == old(vVal(ctx.GovernanceStore.state)) && ctx.GovernanceStore.height == old(ctx.GovernanceStore.height) && (ctx.ProposalMasterStore != nil && ctx.ProposalMasterStore.Proposal != nil ==> ctx.ProposalMasterStore.Proposal.proposalOptions == old(ctx.ProposalMasterStore.Proposal.proposalOptions))   // C14.validate-only-pure
+//@   ensures result0 ==> err == nil                                                                             // C14.update-result
+//@   ensures !result0 ==> err != nil                                                                            // C14.update-result
+
+//@ func propOptionsgeneralvotingDeadline
+//@   safety C18
+//@   requires ctx != nil && ctx.GovernanceStore != nil && ctx.Header != nil && ctx.ProposalMasterStore != nil && ctx.ProposalMasterStore.Proposal != nil                                                       // C18.ctx
+//@   ensures validationOnly == ValidateOnly ==> govWrites(ctx.GovernanceStore) == old(govWrites(ctx.GovernanceStore)) && vHas(ctx.GovernanceStore.state) == old(vHas(ctx.GovernanceStore.state)) && vVal(ctx.GovernanceStore.state) == old(vVal(ctx.GovernanceStore.state)) && ctx.GovernanceStore.height == old(ctx.GovernanceStore.height) && (ctx.ProposalMasterStore != nil && ctx.ProposalMasterStore.Proposal != nil ==> ctx.ProposalMasterStore.Proposal.proposalOptions == old(ctx.ProposalMasterStore.Proposal.proposalOptions))   // C14.validate-only-pure
+//@   ensures result0 ==> err == nil                                                                             // C14.update-result
+//@   ensures !result0 ==> err != nil                                                                            // C14.update-result
+
+//@ func propOptionsconfigUpdatefundingDeadline
+//@   safety C18
+//@   requires ctx != nil && ctx.GovernanceStore != nil && ctx.Header != nil && ctx.ProposalMasterStore != nil && ctx.ProposalMasterStore.Proposal != nil                                                       // C18.ctx
+//@   ensures validationOnly == ValidateOnly ==> govWrites(ctx.GovernanceStore) == old(govWrites(ctx.GovernanceStore)) && vHas(ctx.GovernanceStore.state) == old(vHas(ctx.GovernanceStore.state)) && vVal(ctx.GovernanceStore.state) == old(vVal(ctx.GovernanceStore.state)) && ctx.GovernanceStore.height == old(ctx.GovernanceStore.height) && (ctx.ProposalMasterStore != nil && ctx.ProposalMasterStore.Proposal != nil ==> ctx.ProposalMasterStore.Proposal.proposalOptions == old(ctx.ProposalMasterStore.Proposal.proposalOptions))   // C14.validate-only-pure
+//@   ensures result0 ==> err == nil                                                                             // C14.update-result
+//@   ensures !result0 ==> err != nil                                                                            // C14.update-result
+
+//@ func propOptionscodeChangefundingDeadline
+//@   safety C18
+//@   requires ctx != nil && ctx.GovernanceStore != nil && ctx.Header != nil && ctx.ProposalMasterStore != nil && ctx.ProposalMasterStore.Proposal != nil                                                       // C18.ctx
+//@   ensures validationOnly == ValidateOnly ==> govWrites(ctx.GovernanceStore) == old(govWrites(ctx.GovernanceStore)) && vHas(ctx.GovernanceStore.state) == old(vHas(ctx.GovernanceStore.state)) && vVal(ctx.GovernanceStore.state) == old(vVal(ctx.GovernanceStore.state)) && ctx.GovernanceStore.height == old(ctx.GovernanceStore.height) && (ctx.ProposalMasterStore != nil && ctx.ProposalMasterStore.Proposal != nil ==> ctx.ProposalMasterStore.Proposal.proposalOptions == old(ctx.ProposalMasterStore.Proposal.proposalOptions))   // C14.validate-only-pure
+//@   ensures result0 ==> err == nil                                                                             // C14.update-result
+//@   ensures !result0 ==> err != nil                                                                            // C14.update-result
+
+//@ func propOptionsgeneralfundingDeadline
+//@   safety C18
+//@   requires ctx != nil && ctx.GovernanceStore != nil && ctx.Header != nil && ctx.ProposalMasterStore != nil && ctx.ProposalMasterStore.Proposal != nil                                                       // C18.ctx
+//@   ensures validationOnly == ValidateOnly ==> govWrites(ctx.GovernanceStore) == old(govWrites(ctx.GovernanceStore)) && vHas(ctx.GovernanceStore.state) == old(vHas(ctx.GovernanceStore.state)) && vVal(ctx.GovernanceStore.state) == old(vVal(ctx.GovernanceStore.state)) && ctx.GovernanceStore.height == old(ctx.GovernanceStore.height) && (ctx.ProposalMasterStore != nil && ctx.ProposalMasterStore.Proposal != nil ==> ctx.ProposalMasterStore.Proposal.proposalOptions == old(ctx.ProposalMasterStore.Proposal.proposalOptions))   // C14.validate-only-pure
+//@   ensures result0 ==> err == nil                                                                             // C14.update-result
+//@   ensures !result0 ==> err != nil                                                                            // C14.update-result
+
+//@ func propOptionsconfigUpdatepassPercentage
+//@   safety C18
+//@   requires ctx != nil && ctx.GovernanceStore != nil && ctx.Header != nil && ctx.ProposalMasterStore != nil && ctx.ProposalMasterStore.Proposal != nil                                                       // C18.ctx
+//@   ensures validationOnly == ValidateOnly ==> govWrites(ctx.GovernanceStore) == old(govWrites(ctx.GovernanceStore)) && vHas(ctx.GovernanceStore.state) == old(vHas(ctx.GovernanceStore.state)) && vVal(ctx.GovernanceStore.state) == old(vVal(ctx.GovernanceStore.state)) && ctx.GovernanceStore.height == old(ctx.GovernanceStore.height) && (ctx.ProposalMasterStore != nil && ctx.ProposalMasterStore.Proposal != nil ==> ctx.ProposalMasterStore.Proposal.proposalOptions == old(ctx.ProposalMasterStore.Proposal.proposalOptions))   // C14.validate-only-pure
+//@   ensures result0 ==> err == nil                                                                             // C14.update-result
+//@   ensures !result0 ==> err != nil                                                                            // C14.update-result
+
+//@ func propOptionscodeChangepassPercentage
+//@   safety C18
+//@   requires ctx != nil && ctx.GovernanceStore != nil && ctx.Header != nil && ctx.ProposalMasterStore != nil && ctx.ProposalMasterStore.Proposal != nil                                                       // C18.ctx
+//@   ensures validationOnly == ValidateOnly ==> govWrites(ctx.GovernanceStore) == old(govWrites(ctx.GovernanceStore)) && vHas(ctx.GovernanceStore.state) == old(vHas(ctx.GovernanceStore.state)) && vVal(ctx.GovernanceStore.state) == old(vVal(ctx.GovernanceStore.state)) && ctx.GovernanceStore.height == old(ctx.GovernanceStore.height) && (ctx.ProposalMasterStore != nil && ctx.ProposalMasterStore.Proposal != nil ==> ctx.ProposalMasterStore.Proposal.proposalOptions == old(ctx.ProposalMasterStore.Proposal.proposalOptions))   // C14.validate-only-pure
+//@   ensures result0 ==> err == nil                                                                             // C14.update-result
+//@   ensures !result0 ==> err != nil                                                                            // C14.update-result
+
+//@ func propOptionsgeneralpassPercentage
+//@   safety C18
+//@   requires ctx != nil && ctx.GovernanceStore != nil && ctx.Header != nil && ctx.ProposalMasterStore != nil && ctx.ProposalMasterStore.Proposal != nil                                                       // C18.ctx
+//@   ensures validationOnly == ValidateOnly ==> govWrites(ctx.GovernanceStore) == old(govWrites(ctx.GovernanceStore)) && vHas(ctx.GovernanceStore.state) == old(vHas(ctx.GovernanceStore.state)) && vVal(ctx.GovernanceStore.state) == old(vVal(ctx.GovernanceStore.state)) && ctx.GovernanceStore.height == old(ctx.GovernanceStore.height) && (ctx.ProposalMasterStore != nil && ctx.ProposalMasterStore.Proposal != nil ==> ctx.ProposalMasterStore.Proposal.proposalOptions == old(ctx.ProposalMasterStore.Proposal.proposalOptions))   // C14.validate-only-pure
+//@   ensures result0 ==> err == nil                                                                             // C14.update-result
+//@   ensures !result0 ==> err != nil                                                                            // C14.update-result
+
+//@ func onsOptionsperBlockFees
+//@   safety C18
+//@   requires ctx != nil && ctx.GovernanceStore != nil && ctx.Header != nil && ctx.Domains != nil                                                       // C18.ctx
+//@   ensures validationOnly == ValidateOnly ==> govWrites(ctx.GovernanceStore) == old(govWrites(ctx.GovernanceStore)) && vHas(ctx.GovernanceStore.state) == old(vHas(ctx.GovernanceStore.state)) && vVal(ctx.GovernanceStore.state) == old(vVal(ctx.GovernanceStore.state)) && ctx.GovernanceStore.height == old(ctx.GovernanceStore.height) && (ctx.Domains != nil ==> ctx.Domains.opt == old(ctx.Domains.opt))   // C14.validate-only-pure
+//@   ensures result0 ==> err == nil                                                                             // C14.update-result
+//@   ensures !result0 ==> err != nil                                                                            // C14.update-result
+
+//@ func onsOptionsbaseDomainPrice
+//@   safety C18
+//@   requires ctx != nil && ctx.GovernanceStore != nil && ctx.Header != nil && ctx.Domains != nil                                                       // C18.ctx
+//@   ensures validationOnly == ValidateOnly ==> govWrites(ctx.GovernanceStore) == old(govWrites(ctx.GovernanceStore)) && vHas(ctx.GovernanceStore.state) == old(vHas(ctx.GovernanceStore.state)) && vVal(ctx.GovernanceStore.state) == old(vVal(ctx.GovernanceStore.state)) && ctx.GovernanceStore.height == old(ctx.GovernanceStore.height) && (ctx.Domains != nil ==> ctx.Domains.opt == old(ctx.Domains.opt))   // C14.validate-only-pure
+//@   ensures result0 ==> err == nil                                                                             // C14.update-result
+//@   ensures !result0 ==> err != nil                                                                            // C14.update-result
+
+//@ func feeOptionminFeeDecimal
+//@   safety C18
+//@   requires ctx != nil && ctx.GovernanceStore != nil && ctx.Header != nil && ctx.FeePool != nil                                                       // C18.ctx
+//@   ensures validationOnly == ValidateOnly ==> govWrites(ctx.GovernanceStore) == old(govWrites(ctx.GovernanceStore)) && vHas(ctx.GovernanceStore.state) == old(vHas(ctx.GovernanceStore.state)) && vVal(ctx.GovernanceStore.state) == old(vVal(ctx.GovernanceStore.state)) && ctx.GovernanceStore.height == old(ctx.GovernanceStore.height) && (ctx.FeePool != nil ==> ctx.FeePool.feeOpt == old(ctx.FeePool.feeOpt))   // C14.validate-only-pure
+//@   ensures result0 ==> err == nil                                                                             // C14.update-result
+//@   ensures !result0 ==> err != nil                                                                            // C14.update-result
+
